@@ -123,7 +123,7 @@ fn judge_scalars(ctx: &Ctx, name: &str, v: &RVars, st: &mut Stats) {
 
 fn text_pool() -> Vec<String> {
     ["", "a", "main", "feature/x", "Feat/0042_x", "é", "€€€€", "日本語テキスト", "a€b", "0", "007", "1e5", "true", "none", "NULL", "nil", " padded ", "x y", "release/1.2.3-rc.1+b", "-", "..", "UPPER", "MiXeD-0010", "٣٣", "ſ", "\u{212A}", "İ",
-     "0123456789abcdef", "a-very-long-branch-name-exceeding-twenty-one-chars", "€", "ab€", "abc€", "🙂", "e\u{301}x", "tab\tin", "q\"uote", "back\\slash", "{{ x }}", "%Y", "0000", "0099999999999999999999", "x.00018446744073709551616-y", "00000000000000000000000000000000000001", "$_$1", "None", "Null", "NIL", "nilpotent", "nonexistent", "null/7", "none-of-the-above"]
+     "0123456789abcdef", "a-very-long-branch-name-exceeding-twenty-one-chars", "€", "ab€", "abc€", "🙂", "e\u{301}x", "tab\tin", "q\"uote", "back\\slash", "{{ x }}", "%Y", "0000", "0099999999999999999999", "x.00018446744073709551616-y", "00000000000000000000000000000000000001", "$_$1", "None", "Null", "NIL", "nilpotent", "nonexistent", "null/7", "none-of-the-above", "a&b<c>d", "it's", "<script>", "&amp;"]
         .iter().map(|s| s.to_string()).collect()
 }
 
@@ -185,6 +185,19 @@ fn judge_functions(ctx: &Ctx, text: &str, st: &mut Stats) {
                 Ok(Err(e)) => ctx.violation("function_failed", key(&expr), case(&expr), e),
                 Ok(Ok(o)) => if o != want.trim() { ctx.violation("bare_expression_differs_from_value", format!("{{{{ {expr} }}}} on {text:?}"), case("bare"), format!("printed {o:?}, the value is {:?}", want.trim())); },
             }
+        }
+    }
+    // literal text around an expression: whatever the template *looks like* (a file name with a markup suffix, a URL, a tag, a
+    // path) the expression's value appears in it unchanged - no escaping mode, no interpretation of the surrounding text
+    for (pre, suf) in [("", ".html"), ("", ".htm"), ("", ".xml"), ("", ".xhtml"), ("", ".svg"), ("", ".json"), ("", ".txt"), ("", ".md"), ("", ".yaml"), ("", ".toml"), ("", ".tera"), ("", ".j2"), ("", ".sql"), ("", ".js"), ("", ".tar.gz"), ("report-", ".HTML"),
+        ("<b>", "</b>"), ("<?xml version=\"1.0\"?><v>", "</v>"), ("https://x/y?v=", "&t=1"), ("index.html#", ""), ("v", ""), ("'", "'"), ("\"", "\""), ("$(", ")"), ("%", "%"), ("{# note #}", ""), ("{% raw %}{{ x }}{% endraw %}", "")] {
+        st.inc("function_calls"); st.inc("literal_context_calls");
+        let want = format!("{}{text}{suf}", if pre.contains("raw") { "{{ x }}" } else if pre.starts_with("{#") { "" } else { pre });
+        let tpl = format!("{pre}{{{{ bumped_branch }}}}{suf}");
+        match render(&z, &tpl) {
+            Err(p) => ctx.violation(&format!("panic@{}", p.file()), key(&tpl), case(&tpl), format!("{} at {}", p.message, p.location)),
+            Ok(Err(e)) => ctx.violation("function_failed", key(&tpl), case(&tpl), e),
+            Ok(Ok(o)) => if o != want.trim() { ctx.violation("value_altered_by_literal_context", format!("{tpl} on {text:?}"), case("literal_context"), format!("printed {o:?}, expected {:?}", want.trim())); },
         }
     }
     // `length` / `max_length` written as something other than an integer literal (a fraction, a quotient, a negative number):
